@@ -22,24 +22,39 @@ Definition ext (e : file) (s : wst) : Prop :=
   d_gatts (w_file s) = d_gatts e /\
   (forall n, In n (w_created s) -> ~ In n (map v_name (d_vars e))).
 
-Definition le (s s' : wst) : Prop := forall e, ext e s -> ext e s'.
+Definition nvars (s : wst) : nat := length (d_vars (w_file s)).
+
+(* s' is reached from s by writer steps: the file only grows, an error is
+   never forgotten, variables are never removed *)
+Definition le (s s' : wst) : Prop :=
+  (forall e, ext e s -> ext e s') /\ (w_err s = true -> w_err s' = true) /\ (nvars s <= nvars s')%nat.
 
 Lemma le_refl s : le s s.
-Proof. intros e H; exact H. Qed.
+Proof. split; [intros e H; exact H | split; auto]. Qed.
 
 Lemma le_trans s1 s2 s3 : le s1 s2 -> le s2 s3 -> le s1 s3.
-Proof. intros A B e H. apply B, A, H. Qed.
+Proof.
+  intros (A1 & A2 & A3) (B1 & B2 & B3).
+  split; [intros e H; apply B1, A1, H | split; [auto | eapply Nat.le_trans; eassumption]].
+Qed.
 
-Lemma le_same s s' : w_file s' = w_file s -> w_created s' = w_created s -> le s s'.
-Proof. intros Hf Hc e H. unfold ext in *. rewrite Hf, Hc. exact H. Qed.
+Lemma le_same s s' : w_file s' = w_file s -> w_created s' = w_created s ->
+  (w_err s = true -> w_err s' = true) -> le s s'.
+Proof.
+  intros Hf Hc He. split; [|split; [exact He | unfold nvars; rewrite Hf; auto]].
+  intros e H. unfold ext in *. rewrite Hf, Hc. exact H.
+Qed.
+
+Ltac le_same := apply le_same; [reflexivity | reflexivity | simpl; auto].
 
 Lemma le_set_err s : le s (set_err s).
-Proof. apply le_same; reflexivity. Qed.
+Proof. le_same. Qed.
 
 Lemma le_create_dim m n z s : le s (create_dim m n z s).
 Proof.
   unfold create_dim. destruct (m_dry m || w_err s); [apply le_refl|].
   destruct (smem n _); [apply le_set_err|].
+  split; [|split; [simpl; auto | unfold nvars; simpl; auto]].
   intros e (Hd & Hv & Hg & Hc). unfold ext; simpl. repeat split; auto.
   destruct Hd as [dd Hd]. exists (dd ++ [(n, z)]). rewrite Hd, app_assoc. reflexivity.
 Qed.
@@ -48,6 +63,7 @@ Lemma le_create_var m v s : le s (create_var m v s).
 Proof.
   unfold create_var. destruct (m_dry m || w_err s); [apply le_refl|].
   destruct (smem (v_name v) _) eqn:E; [apply le_set_err|].
+  split; [|split; [simpl; auto | unfold nvars; simpl; rewrite app_length; simpl; lia]].
   intros e (Hd & Hv & Hg & Hc). unfold ext; simpl. repeat split; auto.
   - destruct Hv as [vv Hv]. exists (vv ++ [v]). rewrite Hv, app_assoc. reflexivity.
   - intros n [Hn | Hn]; [|auto]. subst n. intro Hin.
@@ -59,6 +75,7 @@ Lemma le_set_created_ref m n a l s : le s (set_created_ref m n a l s).
 Proof.
   unfold set_created_ref. destruct (m_dry m || w_err s); [apply le_refl|].
   destruct (smem n (w_created s)) eqn:E; [|apply le_refl].
+  split; [|split; [simpl; auto | unfold nvars; simpl; rewrite map_length; auto]].
   intros e (Hd & Hv & Hg & Hc). unfold ext; simpl. repeat split; auto.
   destruct Hv as [vv Hv]. rewrite Hv, map_app.
   eexists. f_equal.
@@ -71,16 +88,14 @@ Qed.
 Lemma le_netcdf_name b s : le s (snd (netcdf_name b s)).
 Proof.
   unfold netcdf_name. destruct (smem b (existing s)).
-  - destruct (first_free _ _ _ _); simpl; [apply le_same; reflexivity | apply le_set_err].
-  - simpl. apply le_same; reflexivity.
+  - destruct (first_free _ _ _ _); simpl; [le_same | apply le_set_err].
+  - simpl. le_same.
 Qed.
 
 Lemma le_write_var m n dims c attrs refs s : le s (write_var m n dims c attrs refs s).
 Proof.
-  unfold write_var. eapply le_trans; [|apply le_create_var]. apply le_same; reflexivity.
+  unfold write_var. eapply le_trans; [|apply le_create_var]. le_same.
 Qed.
-
-Ltac le_same := apply le_same; reflexivity.
 
 Lemma le_write_bounds m k c cd cv s : le s (snd (write_bounds m k c cd cv s)).
 Proof.
@@ -267,25 +282,26 @@ Qed.
 
 Lemma le_set_gl gl s : le s (set_gl gl s).
 Proof.
+  split; [|split; [simpl; auto | unfold nvars; simpl; auto]].
   intros e (Hd & Hv & Hg & Hc). unfold ext; simpl. repeat split; auto.
 Qed.
 
 Lemma append_run_ext vr nc4 e orig new : ext e (append_run vr nc4 e orig new).
 Proof.
   unfold append_run. destruct (refuse vr nc4 orig new).
-  - apply le_set_err, ext_init.
+  - apply (proj1 (le_set_err (init e))), ext_init.
   - set (dry := {| m_dry := true; m_post := false; m_var := vr |}).
     set (post := {| m_dry := false; m_post := true; m_var := vr |}).
     assert (H1 : ext e (log [EClose] (write_fields dry orig (log [EOpenR] (init e))))).
     { assert (L : le (init e) (log [EClose] (write_fields dry orig (log [EOpenR] (init e))))).
       { eapply le_trans; [|le_same]. eapply le_trans; [|apply le_write_fields]. le_same. }
-      apply L, ext_init. }
+      apply (proj1 L), ext_init. }
     destruct (w_err _); [exact H1|].
     assert (L : forall s, le s (log [EClose] (write_fields post new
                  (set_gl (compute_gl vr (d_gatts e) new) (log [EOpenA] s))))).
     { intro s. eapply le_trans; [|le_same]. eapply le_trans; [|apply le_write_fields].
       eapply le_trans; [|apply le_set_gl]. le_same. }
-    apply L, H1.
+    apply (proj1 (L _)), H1.
 Qed.
 
 Theorem preserve vr nc4 e orig new : extends e (fst (append vr nc4 e orig new)).
@@ -602,4 +618,69 @@ Proof.
       apply String.eqb_eq in E. congruence.
     + exists v1. auto.
   - exists v1. auto.
+Qed.
+
+(* ------------------------------------------------------------------------ *)
+(* 9. At least one new variable per appended field                            *)
+(* ------------------------------------------------------------------------ *)
+Lemma write_field_adds m f s :
+  m_dry m = false -> w_err (write_field m f s) = false ->
+  (S (nvars s) <= nvars (write_field m f s))%nat.
+Proof.
+  intros Hdry Herr. revert Herr. unfold write_field. destruct (add_csn f) as [dims bad].
+  set (s0 := if bad then set_err s else s).
+  assert (H0 : le s s0) by (unfold s0; destruct bad; [apply le_set_err | apply le_refl]).
+  pose proof (le_write_axes m f dims (f_axes f) 0
+                {| x_a2d := []; x_dimvar := []; x_coords := []; x_span := [] |} s0) as H1.
+  destruct (write_axes m f dims 0 (f_axes f) _) as [x s1]. simpl in H1.
+  pose proof (le_write_auxs m x (f_aux f) (x_coords x) s1) as H2.
+  destruct (write_auxs m x (f_aux f) (x_coords x) s1) as [coords s2]. simpl in H2.
+  pose proof (le_write_ancs m f x (f_anc f) 0 [] s2) as H3.
+  destruct (write_ancs m f x (f_anc f) 0 [] s2) as [ancvars s3]. simpl in H3.
+  pose proof (le_write_msrs m x (f_msr f) [] s3) as H4.
+  destruct (write_msrs m x (f_msr f) [] s3) as [msrs s4]. simpl in H4.
+  pose proof (le_write_formula m f dims x ancvars s4) as H5.
+  with_name.
+  assert (L : le s w).
+  { eapply le_trans; [exact H0|]. eapply le_trans; [exact H1|]. eapply le_trans; [exact H2|].
+    eapply le_trans; [exact H3|]. eapply le_trans; [exact H4|]. eapply le_trans; [exact H5|]. exact Hn. }
+  destruct L as (_ & _ & Ln).
+  simpl. unfold create_var. rewrite Hdry. simpl orb.
+  destruct (w_err w) eqn:Ew; [intro; congruence|].
+  destruct (smem _ _); [simpl; intro; discriminate|].
+  intros _. unfold nvars in *. simpl. rewrite app_length. simpl. lia.
+Qed.
+
+Lemma write_fields_add m fs : forall s,
+  m_dry m = false -> w_err (write_fields m fs s) = false ->
+  (nvars s + length fs <= nvars (write_fields m fs s))%nat.
+Proof.
+  unfold write_fields. induction fs as [|f r IH]; intros s Hdry Herr; simpl in *; [lia|].
+  assert (E : w_err (write_field m f s) = false).
+  { destruct (w_err (write_field m f s)) eqn:E; [|reflexivity].
+    pose proof (le_write_fields m r (write_field m f s)) as (_ & Hm & _).
+    unfold write_fields in Hm. rewrite (Hm E) in Herr. discriminate. }
+  pose proof (write_field_adds m f s Hdry E). specialize (IH _ Hdry Herr). lia.
+Qed.
+
+Theorem one_variable_per_field vr nc4 e orig new :
+  snd (append vr nc4 e orig new) = Done ->
+  (length (d_vars e) + length new <= length (d_vars (fst (append vr nc4 e orig new))))%nat.
+Proof.
+  unfold append, append_run. cbn [fst snd]. destruct (refuse vr nc4 orig new); [discriminate|].
+  set (dry := {| m_dry := true; m_post := false; m_var := vr |}).
+  set (post := {| m_dry := false; m_post := true; m_var := vr |}).
+  set (s1 := log [EClose] (write_fields dry orig (log [EOpenR] (init e)))).
+  assert (L1 : le (init e) s1).
+  { unfold s1. eapply le_trans; [|le_same]. eapply le_trans; [|apply le_write_fields]. le_same. }
+  destruct (w_err s1) eqn:E1; [rewrite E1; discriminate|].
+  set (s2 := set_gl (compute_gl vr (d_gatts e) new) (log [EOpenA] s1)).
+  destruct (w_err (log [EClose] (write_fields post new s2))) eqn:E2; [discriminate|].
+  intros _. change (w_err (write_fields post new s2) = false) in E2.
+  pose proof (write_fields_add post new s2 eq_refl E2) as H.
+  destruct L1 as (_ & _ & Ln). unfold nvars in *.
+  change (d_vars (w_file (log [EClose] (write_fields post new s2))))
+    with (d_vars (w_file (write_fields post new s2))).
+  change (d_vars (w_file s2)) with (d_vars (w_file s1)) in H.
+  change (d_vars (w_file (init e))) with (d_vars e) in Ln. lia.
 Qed.
